@@ -14,7 +14,9 @@ Which iterations run for given runtime values is value-level and NOT decided.  D
        otherwise; @while re-evaluates the condition in the loop header (every iteration) and
        tests `is_true()`; @each binds the loop names with define_multi before the body, once per
        element of `iter_items()`; @for defines the loop variable before the body for every value
-       of the range.
+       of the range;
+ (iv)  @each destructuring binds every loop variable: the binding loop of Scope::define_multi is driven
+       by the names (alone, or zipped with a value side padded by an unbounded repeat of null).
 """
 from lib import ast as A
 
@@ -256,9 +258,77 @@ def interpreter_rules(ctx, tree):
             (ctx.ok if ok else ctx.fail)("F3-loop-binding", key, *([None] if ok else [f"{who}: {why}", f["path"]]))
 
 
+def destructuring_rule(ctx, F):
+    """(iv) @each destructuring binds EVERY loop variable: in Scope::define_multi the loop that defines the
+    variables is driven by `names` — either it iterates names alone, or it zips names with a value
+    side that is padded without bound (`chain(repeat(Null))`), so that missing positions become null.
+    A loop driven by the element's items (zip of two finite sides, plus a one-off fix-up) leaves the
+    later variables unbound."""
+    from lib import mir, sym
+    prog = F.lib
+    S = sym.Sym(prog, inline_depth=0)
+    b = prog.one("<variablescope::Scope>::define_multi")
+    loops = []
+    for bi, t in b.calls():
+        if (mir.callee_orig(t) or "") != "std::iter::Iterator::next":
+            continue
+        it = sym.strip_transparent(S.operand(b, t["args"][0]))
+        # is this the loop that defines variables? a define call uses the item
+        uses = [b2 for b2, t2 in b.calls() if (mir.callee_name(t2) or "").endswith("Scope>::define") and any("Iterator>::next" in repr(S.operand(b, a)) for a in t2["args"])]
+        in_loop = any(bi in b.reachable_blocks(nx) for nx in b.successors(bi))
+        if uses and in_loop:
+            loops.append((bi, it))
+    if len(loops) != 1:
+        ctx.anchor_lost("define_multi binding loop", f"expected one loop whose items are passed to define, found {len(loops)}")
+        return
+    bi, it = loops[0]
+    key = "define_multi|every loop variable is bound (missing positions to null)"
+
+    def names_side(t):
+        return "('param', 2, ())" in repr(t)
+
+    def unbounded(t):
+        r = repr(t)
+        return any(x in r for x in ("iter::repeat", "'repeat'", "std::iter::repeat", "repeat_with", "Iterator::cycle")) and "Null" in r
+    zips = [x for x in _terms(it) if x[0] == "call" and x[1].endswith("Iterator::zip") and len(x[2]) == 2]
+    ok, why = False, ""
+    if zips:
+        a, c = zips[0][2]
+        if names_side(a) and not names_side(c):
+            ok = unbounded(c)
+            why = "" if ok else f"the value side `{sym.show(c)[:120]}` is finite: names beyond the element's items are never bound"
+        elif names_side(c) and not names_side(a):
+            ok = unbounded(a)
+            why = "" if ok else f"the value side `{sym.show(a)[:120]}` is finite: names beyond the element's items are never bound"
+        else:
+            why = "cannot tell the names side of the zip"
+    else:
+        ok = names_side(it)
+        why = "" if ok else f"the binding loop iterates `{sym.show(it)[:120]}`, not the loop variable names"
+    if ok:
+        ctx.ok("F4-each-destructuring", key, sym.show(it)[:160])
+    else:
+        ctx.fail("F4-each-destructuring", key, f"Scope::define_multi: {why}; `@each $a, $b, $c in ..` must bind every variable, the missing positions to null", where=b.where(bi))
+
+
+def _terms(t):
+    out = []
+
+    def rec(x):
+        if isinstance(x, tuple):
+            if x and isinstance(x[0], str):
+                out.append(x)
+            for y in x:
+                if isinstance(y, tuple):
+                    rec(y)
+    rec(t)
+    return out
+
+
 def run(ctx, F):
     ctx.explanation = ("C17, structural clauses only (the visited iterations themselves are value-level and not decided): through/to keyword table and flag provenance, "
                        "ValueRange step selection / inclusive adjustment / yield-then-advance, and the shape of the @if/@while/@each/@for arms of both item interpreters (AST)")
     tree = F.ast
     range_rules(ctx, tree)
     interpreter_rules(ctx, tree)
+    destructuring_rule(ctx, F)
